@@ -120,6 +120,43 @@ def install(ex, fs, flaky):
     add(r'(?:tokio::fs::)?write::<.*>', lambda ex, c, a: fut(lambda: fs_write(pstr(a[0]), data_of(a[1]))))
     add(r'(?:std::fs::)?write::<.*>', lambda ex, c, a: fs_write(pstr(a[0]), data_of(a[1])))
 
+    def fs_read(path):
+        n = fs.get(path)
+        if n is None:
+            return err(ioerr('NotFound'))
+        if n[0] == 'dir':
+            return err(ioerr('IsADirectory'))
+        c = n[1]
+        if not c:
+            return ok(ContentV('new', 0))
+        if c == ['new']:
+            return ok(ContentV('new'))
+        if c == ['new-prefix']:
+            return ok(ContentV('new', 4))
+        return ok(ContentV(c[0]))
+    add(r'(?:tokio::fs::)?read::<.*>', lambda ex, c, a: fut(lambda: fs_read(pstr(a[0]))))
+    add(r'(?:std::fs::)?read::<.*>', lambda ex, c, a: fs_read(pstr(a[0])))
+
+    def content_starts_with(ex, c, a):
+        x, y = deref(a[0]), deref(a[1])
+        if not (isinstance(x, ContentV) and isinstance(y, ContentV)):
+            return NotImplemented
+        if y.length() == 0:
+            return True
+        return x.cls == y.cls and y.length() <= x.length()
+    add(r'(?:core|std|alloc)::slice::<impl \[u8\]>::starts_with', content_starts_with)
+    add(r'<(?:std::vec::)?Vec<u8> as (?:std::ops::)?Deref>::deref', lambda ex, c, a: a[0] if isinstance(deref(a[0]), ContentV) else NotImplemented)
+
+    def content_eq(ex, c, a):
+        x, y = deref(a[0]), deref(a[1])
+        if not (isinstance(x, ContentV) and isinstance(y, ContentV)):
+            return NotImplemented
+        r = x.cls == y.cls and x.length() == y.length() or (x.length() == 0 and y.length() == 0)
+        return r if c.endswith('eq') else not r
+    add(r'<.* as PartialEq<.*>>::(eq|ne)|<\[u8\] as PartialEq>::(eq|ne)', content_eq)
+    add(r'(?:core|std|alloc)::slice::<impl \[u8\]>::(len|is_empty)|(?:std::vec::)?Vec::<u8>::(len|is_empty)',
+        lambda ex, c, a: (deref(a[0]).length() if c.endswith('len') else deref(a[0]).length() == 0) if isinstance(deref(a[0]), ContentV) else NotImplemented)
+
     def remove_file(path):
         n = fs.get(path)
         if n is None:
@@ -178,18 +215,22 @@ def install(ex, fs, flaky):
 
 
 class ContentV(Model):
-    """&[u8] holding the bytes of content class cls."""
+    """&[u8] / Vec<u8> holding the first `n` bytes of content class cls (n = None: all of it)."""
     ty = 'bytes'
     unsized = True
+    FULL = 10
 
-    def __init__(self, cls):
-        self.cls = cls
+    def __init__(self, cls, n=None):
+        self.cls, self.n = cls, n
+
+    def length(self):
+        return self.FULL if self.n is None else self.n
 
     def clone_model(self):
         return self
 
 
-PRE = ['absent', 'empty', 'nonempty']
+PRE = ['absent', 'empty', 'nonempty', 'identical', 'prefix']
 
 
 def make_local_write(prog):
@@ -206,6 +247,10 @@ def make_local_write(prog):
                 fs[TARGET] = ('file', [])
             elif pre == 'nonempty':
                 fs[TARGET] = ('file', ['old'])
+            elif pre == 'identical':
+                fs[TARGET] = ('file', ['new'])          # the very bytes that are about to be written (a path must not be written twice)
+            elif pre == 'prefix':
+                fs[TARGET] = ('file', ['new-prefix'])   # the first part of those bytes
             install(ex, fs, flaky)
             proto = mk(ex, 'transport::local::Protocol', path=M.PathV(ROOT), url=Opaque('Url'), tempdir=none())
             wname = [n for (n, tr) in prog.fn_index.get(('Protocol', 'Protocol', 'write'), []) if 'local' in n]
@@ -238,8 +283,9 @@ def make_local_write(prog):
             content = t[1] if t else None
             if o['other'] != ('file', ['other']):
                 problems.append('another file changed')
-            if o['create_new'] and o['pre'] == 'nonempty':
-                if o['ok'] or content != ['old']:
+            if o['create_new'] and o['pre'] in ('nonempty', 'identical', 'prefix'):
+                was = {'nonempty': ['old'], 'identical': ['new'], 'prefix': ['new-prefix']}[o['pre']]
+                if o['ok'] or content != was:
                     problems.append('CreateNew on an existing non-empty file: result %s, the file now holds %r (must fail and leave it alone)'
                                     % ('Ok' if o['ok'] else 'Err(%s)' % o['kind'], content))
                 elif o['kind'] != 'AlreadyExists':
